@@ -184,10 +184,13 @@ func ensureBuild(needRace bool) *build {
 	have := func(p string) bool { st, err := os.Stat(p); return err == nil && st.Size() > 0 }
 	if have(b.bin) && (!needRace || have(b.raceBin)) {
 		loadMeta()
+		now := time.Now()
+		os.Chtimes(dir, now, now) // mark as in use: entries used within the last hour are never pruned
 		return b
 	}
 	os.MkdirAll(dir, 0o755)
-	// prune old cache entries (keep 2 newest besides this one)
+	// prune old cache entries (keep the 2 newest besides this one, and everything used within the last hour:
+	// another check may be running from it)
 	if ents, err := os.ReadDir(cacheRoot); err == nil {
 		type ent struct {
 			name string
@@ -204,7 +207,7 @@ func ensureBuild(needRace bool) *build {
 		}
 		sort.Slice(es, func(i, j int) bool { return es[i].t.After(es[j].t) })
 		for i, e := range es {
-			if i >= 2 {
+			if i >= 2 && time.Since(e.t) > time.Hour {
 				os.RemoveAll(filepath.Join(cacheRoot, e.name))
 			}
 		}
@@ -445,7 +448,8 @@ func main() {
 		*tier = t
 	}
 	if *buildOnly {
-		ensureBuild(false)
+		b := ensureBuild(os.Getenv("DBG_RACE") != "")
+		fmt.Println(b.dir)
 		return
 	}
 	if *replay != "" {
